@@ -740,7 +740,40 @@ func R9NameIdentity(c *Ctx) {
 			}
 		}
 		if n == 0 {
-			c.R.Anchor(rule, "a `return true` in "+FuncShort(fn))
+			// the other idiom: let SQL decide — `return rows.Next()` of a query with `WHERE Name = ?` bound to the parameter
+			for _, b := range fn.Blocks {
+				for _, in := range b.Instrs {
+					call, ok := in.(*ssa.Call)
+					if !ok || !strings.HasSuffix(CalleeName(call), "sql.DB).Query") && !strings.HasSuffix(CalleeName(call), "sql.DB).QueryRow") {
+						continue
+					}
+					args := CallArgs(call)
+					if len(args) == 0 {
+						continue
+					}
+					q, ok := ConstString(args[0])
+					if !ok {
+						continue
+					}
+					n++
+					up := strings.ToUpper(q)
+					exact := regexp.MustCompile(`(?i)\bWHERE\s+Name\s*=\s*\?`).MatchString(q) && !strings.Contains(up, "LIKE") && !strings.Contains(up, "GLOB") && !strings.Contains(up, "NOCASE") && !strings.Contains(up, "LOWER(") && !strings.Contains(up, "UPPER(")
+					bound := false
+					for _, a := range args[1:] {
+						if DerivesFrom(a, func(v ssa.Value) bool { return ParamOf(v) != nil }) {
+							bound = true
+						}
+					}
+					if exact && bound {
+						c.R.Ok(rule, FuncShort(fn), "existence by SQL `WHERE Name = ?` bound to the parameter", c.pos(call.Pos()), "exact (BINARY) comparison in SQL", true)
+					} else {
+						c.R.Bad(rule, FuncShort(fn), "existence by SQL `WHERE Name = ?` bound to the parameter", c.pos(call.Pos()), "existence is decided by `"+q+"`, not by an exact = comparison with the name parameter (LIKE is case-insensitive and treats _ and % as wildcards): two spellings count as the same listener here but as different ones elsewhere, so the running and the persisted sets diverge")
+					}
+				}
+			}
+		}
+		if n == 0 {
+			c.R.Anchor(rule, "an exact name comparison deciding "+FuncShort(fn))
 		}
 	}
 	for _, ref := range [][2]string{{PkgDB, "DB.ListenerExist"}, {PkgService, "Service.ListenerExist"}, {PkgService, "Service.AgentExist"}} {
